@@ -693,20 +693,31 @@ fn t_threads(rng: &mut Rng, stats: &mut Stats) {
 	let n_threads = 2 + rng.usize(2);
 	let vals: Vec<Vec<Val>> = (0..n_threads).map(|_| (0..1 + rng.usize(2)).map(|_| gen_one(rng, &env, &ty)).collect()).collect();
 	let built_from_graph = rng.bool();
-	let schema: Schema = if built_from_graph {
-		stats.op("build-graph");
-		SchemaMut::from_nodes(nodes_of(&ty)).freeze().unwrap_or_else(|e| mismatch!("freeze: {e}"))
-	} else {
-		stats.op("parse");
-		ast::to_json(&ty).parse().unwrap_or_else(|e| mismatch!("parse: {e}"))
+	let make_schema = |stats: &mut Stats| -> Schema {
+		if built_from_graph {
+			stats.op("build-graph");
+			SchemaMut::from_nodes(nodes_of(&ty)).freeze().unwrap_or_else(|e| mismatch!("freeze: {e}"))
+		} else {
+			stats.op("parse");
+			ast::to_json(&ty).parse().unwrap_or_else(|e| mismatch!("parse: {e}"))
+		}
 	};
-	// sequential results first
+	// sequential results first — on a SEPARATE schema instance, so that in half of the histories the worker
+	// threads are the very first users of the shared one (anything initialised lazily is then initialised concurrently)
+	let schema_seq = make_schema(stats);
 	let expected: Vec<Vec<Vec<u8>>> = vals
 		.iter()
-		.map(|vs| vs.iter().map(|v| encode(&schema, &env, &ty, v, PresCfg::plain()).unwrap_or_else(|e| mismatch!("sequential encode: {e}"))).collect())
+		.map(|vs| vs.iter().map(|v| encode(&schema_seq, &env, &ty, v, PresCfg::plain()).unwrap_or_else(|e| mismatch!("sequential encode: {e}"))).collect())
 		.collect();
 	let (codec, _) = pick_codec(rng);
-	let files: Vec<Vec<u8>> = vals.iter().map(|vs| make_file(&schema, &env, &ty, vs, codec, &mut rng.fork())).collect();
+	let files: Vec<Vec<u8>> = vals.iter().map(|vs| make_file(&schema_seq, &env, &ty, vs, codec, &mut rng.fork())).collect();
+	let schema: Schema = if rng.bool() {
+		stats.op("threads:first-use-is-concurrent");
+		drop(schema_seq);
+		make_schema(stats)
+	} else {
+		schema_seq
+	};
 	let worker = |schema: &Schema, ty: &Ty, vs: &[Val], exp: &[Vec<u8>], file: &[u8]| {
 		let env = Env::build(ty);
 		// Debug rendering walks the node graph (with a thread-local depth guard)
